@@ -229,7 +229,10 @@ func (r *Recorder) WaitBranch(max time.Duration) {
 		r.branchMu.Lock()
 		done := r.BranchDone
 		r.branchMu.Unlock()
-		if done || time.Now().After(deadline) {
+		r.mu.Lock()
+		caught := r.TeeSeen && r.branchExpSeen() >= r.Expect
+		r.mu.Unlock()
+		if done || caught || time.Now().After(deadline) {
 			break
 		}
 		time.Sleep(100 * time.Microsecond)
@@ -238,6 +241,13 @@ func (r *Recorder) WaitBranch(max time.Duration) {
 	segs := append(Segs{}, r.BranchSegs...)
 	r.branchMu.Unlock()
 	r.Add(Ev{"e": "Branch", "segs": segs})
+}
+
+// branchExpSeen: how far into the stream the tee's branch has read
+func (r *Recorder) branchExpSeen() int {
+	r.branchMu.Lock()
+	defer r.branchMu.Unlock()
+	return r.branchExp
 }
 
 // NoteBuf remembers the largest matching buffer observed.
